@@ -10,7 +10,7 @@ Line protocol handler for the `doc` domain (C12).
     n | t | f | i<int>; | r<num>/<den>; | s<hex of ASCII>; | d<date ordinal>; | [ item* ] | { (key item)* }      key = s<hex>; | i<int>;
 
 `<sys>` = {pk, pp, groups:[{key, plural, roles:[{key, plural|n, max|n, sub:[…]}]}],
-           vars:[{name, entity, type: "int"|"float"|"bool"|"str"|"date"|[enum names], unit, default, rule}]}
+           vars:[{name, entity, type: "int"|"float"|"bool"|"str"|"date"|[enum names], unit, default, rule, end: "YYYY-MM-DD"|n}]}
 
 `<entities>` = `key:ids:count:members_entity_id:members_role:members_position` joined by `;`
 (ids and role keys in hex, `-` = empty list); `<store>` = `var(hex)@period text=v,v,…` joined by
@@ -124,8 +124,13 @@ def readRule : String → Option SRule
 def readVar (d : Doc) : Option Var := do
   let kvs ← d.asObj?
   let t ← readVType (← lookupS "type" kvs)
+  let stop ← match fStr kvs "end" with
+    | none => some none
+    | some txt => match parseInstant txt.toList with
+      | .ok c => some (some c)
+      | .error _ => none
   pure ⟨← fStr kvs "name", ← fStr kvs "entity", t, ← DUnit.ofName (← fStr kvs "unit"),
-    ← readDefault t (← lookupS "default" kvs), ← readRule (← fStr kvs "rule")⟩
+    ← readDefault t (← lookupS "default" kvs), ← readRule (← fStr kvs "rule"), stop⟩
 
 def readSys (d : Doc) : Option Sys := do
   let kvs ← d.asObj?
